@@ -50,7 +50,7 @@ def note_pool(ix, op):
 def guarded(fn):
     """Run a query; returns (value, exc-name)."""
     try:
-        with warnings.catch_warnings():
+        with warnings.catch_warnings(), impl.time_limit():
             warnings.simplefilter("ignore")
             return fn(), ""
     except Exception as e:
@@ -293,3 +293,74 @@ def _c20(ix, driver, i, op, res):
 
 
 hook_toplinked = wrap(_c20)
+
+
+# ------------------------------------------------------------------------------- C09 / C10
+READ_ONLY_OPS = ("Paginate", "PagLinks", "Reopen")
+
+
+def _tok(ret):
+    tok = ret.get("token") if isinstance(ret, dict) else None
+    d = impl.token_decode(tok) if tok else None
+    return {"hasToken": bool(tok), "ti": d[0] if d else 0, "tpath": list(d[1]) if d else [],
+            "tokenRoundTrip": (impl.token_roundtrip(tok) if tok else True)}
+
+
+def _pagination(ix, driver, i, op, res):
+    """Session bookkeeping for paginate_webentity_pages (relational clauses of C09)."""
+    t = ix.t
+    st = getattr(ix, "pagstate", None)
+    q = {}
+    if op is not None and op["op"] == "Paginate" and not op["token"]:
+        st = ix.pagstate = {"id": op["id"], "ps": list(op["ps"]), "sofar": [], "through": None, "cthrough": None}
+    if op is not None and op["op"] == "Clear":
+        st = ix.pagstate = None
+    if st is not None:
+        wp, e = guarded(lambda: [(p["lru"], bool(p["crawled"])) for p in t.get_webentity_pages(st["id"], st["ps"])])
+        wp = wp or []
+        now, cnow = set(l for l, _ in wp), set(l for l, c in wp if c)
+        st["through"] = now if st["through"] is None else (st["through"] & now)
+        st["cthrough"] = cnow if st["cthrough"] is None else (st["cthrough"] & cnow)
+        if op is not None and op["op"] == "Paginate" and (op["id"], list(op["ps"])) == (st["id"], st["ps"]):
+            ret = res["ret"] if isinstance(res.get("ret"), dict) else {}
+            pages = [{"l": p["lru"], "cr": bool(p["crawled"])} for p in ret.get("pages", [])]
+            row = {"exc": res["exc"], "done": bool(ret.get("done", False)), "pages": pages,
+                   "count": ret.get("count", -1), "ccount": ret.get("count_crawled", -1),
+                   "sofar": list(st["sofar"]), "wpages": [{"l": l, "cr": c} for l, c in wp],
+                   "through": sorted(st["through"]), "cthrough": sorted(st["cthrough"])}
+            row.update(_tok(ret))
+            q["pag"] = row
+            st["sofar"] += [p["l"] for p in pages]
+    return q
+
+
+hook_pagination = wrap(_pagination)
+
+
+def _paglinks(ix, driver, i, op, res):
+    t = ix.t
+    st = getattr(ix, "plstate", None)
+    q = {}
+    if op is not None and op["op"] == "PagLinks" and not op["token"]:
+        st = ix.plstate = {"key": (op["id"], list(op["ps"]), op["int"], op["out"]), "sofar": [], "quiet": True}
+    elif op is not None and st is not None and op["op"] not in READ_ONLY_OPS:
+        st["quiet"] = False
+    if op is not None and op["op"] == "Clear":
+        st = ix.plstate = None
+    if st is not None and op is not None and op["op"] == "PagLinks" and \
+            (op["id"], list(op["ps"]), op["int"], op["out"]) == st["key"]:
+        ret = res["ret"] if isinstance(res.get("ret"), dict) else {}
+        links = [{"s": s, "t": tg, "w": w} for s, tg, w in ret.get("pagelinks", [])]
+        full, e = guarded(lambda: [{"s": s, "t": tg, "w": w} for s, tg, w in t.get_webentity_pagelinks(
+            op["id"], list(op["ps"]), include_inbound=False, include_internal=op["int"],
+            include_outbound=op["out"])])
+        row = {"exc": res["exc"], "done": bool(ret.get("done", False)), "links": links,
+               "nsrc": ret.get("count_sourcepages", -1), "nlinks": ret.get("count_pagelinks", -1),
+               "sofar": list(st["sofar"]), "full": full or [], "fullexc": e, "quiet": st["quiet"]}
+        row.update(_tok(ret))
+        q["pagl"] = row
+        st["sofar"] += links
+    return q
+
+
+hook_paglinks = wrap(_paglinks)
